@@ -155,3 +155,20 @@ Example C12_source_shapes :
   option_map d_returns (parse_driver (strip ToSVG)) = Some false /\
   option_map d_returns (parse_driver (strip ToSTL)) = Some true.
 Proof. repeat split; vm_compute; reflexivity. Qed.
+
+(* The semantics is not vacuously safe: run on the PINNED error path (the goroutine of writeSTL
+   with `return` instead of `for range c {}; return`) with a write error at item 1 of three
+   batches, it stops with the caller blocked in Render, two batches unsent and the goroutine
+   gone; and a writer that can fail under a driver whose handler does not return (ToSVG's
+   shape) stops with the caller blocked in Render and no goroutine at all. *)
+Example C12_source_semantics_exhibits_hang :
+  (forall K, parse_consumer [Defer PWgDone; Defer PCloseFile; RangeChan [RangeItems [IfErr PWriteItem [Return]; Do PCount]]] = Some K ->
+     let c := iexec K 0 true (Some 1) (fun _ => false) None 200 (iinit [[1; 2; 3]; [4; 5]; [6]]) in
+     i_m c = MRender /\ i_k c = Some KExit /\ i_todo c = [[4; 5]; [6]] /\ i_out c = [1] /\
+     inext K 0 true (Some 1) (fun _ => false) None c = []) /\
+  (forall K, parse_consumer [Defer PWgDone; RangeChan [RangeItems [Do PAccItem]]] = Some K ->
+     let c := iexec K 1 false None (fun _ => false) (Some 0) 200 (iinit [[1; 2; 3]]) in
+     i_m c = MRender /\ i_k c = None /\ inext K 1 false None (fun _ => false) (Some 0) c = []).
+Proof.
+  split; intros K H; vm_compute in H; inversion H; subst K; vm_compute; repeat split; reflexivity.
+Qed.
